@@ -18,4 +18,5 @@ import (
 	_ "verif/h/c15"
 	_ "verif/h/c16"
 	_ "verif/h/c17"
+	_ "verif/h/c19"
 )
